@@ -17,6 +17,8 @@ def check(ctx):
         for fam in FAMILIES:
             for mode in MODES:
                 check_kernel(ctx, KE, fam, mode, backend, rule="R8-kernel-is-reference-estimator")
+    from ..effects import check_no_shared_module_state
+    check_no_shared_module_state(ctx, rule="R9-config-not-shared")
     ctx.trust("E3/E5 abstract interpreter and library model", "L1 Goertzel closed form", "L2", "L17 chunk partition")
     ctx.assume("exact arithmetic", "cache hits return what a recomputation would (R5)")
     return ("Both dispatchers are partially evaluated for 72 abstract configurations (order x mode x backend x window kind, plus fres requests): exactly one "
